@@ -654,10 +654,14 @@ func Gen(rng *rand.Rand, o GenOpts) *Case {
 			}
 		}
 		if !g.o.NoOrderLimit {
-			switch pick(rng, 0.8, 0.1, 0.1) {
+			switch pick(rng, 0.7, 0.17, 0.13) {
 			case 1:
-				q.Limit = 1 + rng.Intn(6)
-				g.feat["limit"] = true
+				// LIMIT over duplicate rows is C05's subject (OrderSensitiveTransform counts distinct
+				// rows, not rows): only generated when every output row is unique
+				if allIDs && unique {
+					q.Limit = 1 + rng.Intn(6)
+					g.feat["limit"] = true
+				}
 			case 2:
 				if allIDs && unique {
 					nk := 1 + rng.Intn(2)
